@@ -18,8 +18,7 @@ STATIC = ["C09_next_id_monotone", "C09_decode_unique", "C09_names_fresh", "C09_r
     "created_pairwise_distinct", "created_pairwise_distinct_from", "created_never_alias",
     "subs_non_interference", "subs_unmentioned", "diff_unmentioned", "subs_lin2", "diff_lin2", "solve_lin2_sound",
     "clone_creates", "clone_keeps_dimension", "clone_keeps_display_when_not_overridden", "clone_subscript",
-    "clone_assumptions_partial", "clone_assumptions_refuted", "clone_assumptions_full_statement_false",
-    "clone_assumptions_passed", "printing_uses_display", "display_is_given", "printing_shows_given_display"]
+    "clone_assumptions", "clone_assumptions_passed", "printing_uses_display", "display_is_given", "printing_shows_given_display"]
 
 CODE_NAMES = {1: "objects", 2: "counters", 3: "aliasing", 4: "printed-sums", 5: "algebra"}
 CLONE_FN = {"csym": "clone_as_symbol", "cfun": "clone_as_function", "cidx": "clone_as_indexed"}
@@ -134,23 +133,23 @@ def _term_text(r):
 
 # ---------------------------------------------------------------------------------------------
 
-def known_witness(ctx):
-    """replay of clone_assumptions_refuted on the real code"""
+def clone_function_example(ctx):
+    """SymbolsProofs.ex_clone_function_inherits replayed on the real code (regression guard for the defect repaired in
+    /repo 5aaf018: clone_as_function used to ignore source.assumptions0)"""
     import sympy  # pylint: disable=import-outside-toplevel
     from symplyphysics import Symbol  # pylint: disable=import-outside-toplevel
     from symplyphysics.core.symbols.symbols import clone_as_function  # pylint: disable=import-outside-toplevel
     x = Symbol("x", positive=True)
-    f = clone_as_function(x)
     t = sympy.Symbol("t")
-    inherited = f(t).is_positive is True
-    ctx.coverage["clone_as_function_witness"] = {"source": "Symbol('x', positive=True)", "clone(t).is_positive": str(f(t).is_positive),
-        "clone._kwargs": dict(getattr(f, "_kwargs", {}))}
+    f, g = clone_as_function(x), clone_as_function(x, real=True)
+    inherited = f(t).is_positive is True and g(t).is_real is True and g(t).is_positive is None
+    ctx.coverage["clone_as_function_example"] = {"source": "Symbol('x', positive=True)", "clone(t).is_positive": str(f(t).is_positive),
+        "clone(real=True)(t).is_positive": str(g(t).is_positive)}
     if not inherited:
         ctx.violation("C09:clone_as_function:assumptions-not-inherited",
-            "clone_as_function(Symbol('x', positive=True)) is not positive: the helper never reads source.assumptions0 "
-            "(witness of Coq theorem clone_assumptions_refuted replayed on the real code)",
+            "clone_as_function(Symbol('x', positive=True)) is not positive (or passed assumptions do not replace the source's)",
             {"kind": "violation", "input": "clone_as_function(Symbol('x', positive=True))(t).is_positive",
-             "observed": str(f(t).is_positive), "expected": "True", "theorem_or_tie": "clone_assumptions_refuted"}, True)
+             "observed": str(f(t).is_positive), "expected": "True", "theorem_or_tie": "clone_assumptions / ex_clone_function_inherits"}, True)
     return inherited
 
 
@@ -274,7 +273,7 @@ def run(ctx):
         "deliberately re-uses a name and is outside the model)")
     found = symgen.tie_prefixes(ctx)
     symgen.ids_stream(ctx, ctx.pick(300, 3000), found)
-    known_witness(ctx)
+    clone_function_example(ctx)
     store_stream(ctx, ctx.pick(80, 400), 200)
     ctx.coverage["rule"] = ("store stream: seeded sequences of 3..200 creations/clones (Symbol, IndexedSymbol, Function, Quantity, "
         "CoordinateSystem/transform/rotate, VectorSymbol, QuantityVector, clone_as_symbol/function/indexed) with display names from a pool "
@@ -288,7 +287,7 @@ def replay(ctx, rep):
     import sympy  # pylint: disable=import-outside-toplevel
     print(json.dumps({k: rep.get(k) for k in ("key", "what", "detail", "input", "observed", "expected")}, indent=1, default=str))
     if rep.get("key", "").startswith("C09:clone_as_function:assumptions-not-inherited") and "ops" not in rep:
-        ok = known_witness(ctx)
+        ok = clone_function_example(ctx)
         print("replayed: clone inherits positivity =", ok)
         return 0 if ok else 1
     ops = rep.get("ops")
@@ -355,7 +354,7 @@ def replay_ops(ops, t, probe=None):
     for o in objs:
         h = o.handle
         rec = {"kind": o.kind, "name": str(h.name), "display": h.display_name, "latex": h.display_latex, "dim": qx.dim_vec(h.dimension)}
-        raw = dict(h.assumptions0) if o.kind in ("sym", "idx") else dict(getattr(h, "_kwargs", {})) if o.kind == "fun" else {}
+        raw = dict(h.assumptions0) if o.kind in ("sym", "idx") else symgen.function_kwargs(h) if o.kind == "fun" else {}
         rec["assum_raw"] = raw
         rec["assum"] = symgen.classify_assumptions(raw, tabs.get(o.kind, tabs["sym"])) if o.kind in tabs else ()
         term = o.term(t)
